@@ -887,6 +887,178 @@ def run_sequences(ck, nseq, length):
     ck.obligation('heap model = real classes on %d operation sequences (%d operations)' % (len(seqs), nops), nbad == 0)
 
 
+# ----------------------------------------------------------------------------- abs() at extreme scales (oracle only)
+def abs_extreme_oracle(ck):
+    """abs() must be the max norm over the WHOLE floating-point range of every supported dtype, not only for the
+    small integers of the heap correspondence: value = max_i |u_i| (exact rational reference, a few ulp of the array's
+    own precision), abs(u) == 0 iff u == 0, finite for finite data with representable moduli, homogeneous for powers
+    of two, triangle inequality.  Independent of the Coq model."""
+    from fractions import Fraction as F
+    CLS, particles, fields, DataError = load_classes()
+    rng = ck.rng
+    vio = Capped(ck, cap=4)
+    thorough = ck.tier == 'thorough'
+    DT = {'float64': (np.float64, 2.0 ** -52, 5e-324, (-300, -160), (150, 300), 1022),
+          'complex128': (np.float64, 2.0 ** -52, 5e-324, (-300, -160), (150, 300), 1022),
+          'float32': (np.float32, 2.0 ** -23, 1.4e-45, (-37, -23), (19, 37), 126),
+          'complex64': (np.float32, 2.0 ** -23, 1.4e-45, (-37, -23), (19, 37), 126)}
+    ULPS = 4
+    ncase = 0
+    nbad = 0
+    nhom = [0, 0]
+    supported = {}
+
+    def draw(regime, n, base, lo, hi, sub):
+        out = []
+        for _ in range(n):
+            r = regime if regime != 'mixed' else rng.choice(['tiny', 'ordinary', 'zero', 'denormal'])
+            sgn = rng.choice([-1.0, 1.0])
+            if r == 'tiny':
+                v = sgn * rng.uniform(1, 10) * 10.0 ** rng.uniform(*lo)
+            elif r == 'huge':
+                v = sgn * rng.uniform(1, 10) * 10.0 ** rng.uniform(hi[0], hi[1] - 1)
+            elif r == 'denormal':
+                v = sgn * sub * rng.randint(1, 2 ** 20)
+            elif r == 'zero':
+                v = 0.0
+            else:
+                v = sgn * rng.uniform(0.001, 1000.0)
+            out.append(float(base(v)))        # rounded to the component precision
+        return out
+
+    def make(cls, kind, dtype, shape, comps):
+        u = cls((shape, None, np.dtype(dtype)))
+        full = u.shape
+        if np.dtype(dtype).kind == 'c':
+            data = np.array([complex(a, b) for a, b in comps], dtype=dtype).reshape(full)
+        else:
+            data = np.array([a for a, b in comps], dtype=dtype).reshape(full)
+        u[:] = data
+        return u
+
+    def modsq_max(u):
+        flat = np.asarray(u).reshape(-1).tolist()
+        return max(F(complex(x).real) ** 2 + F(complex(x).imag) ** 2 for x in flat)
+
+    def within(r, m2, eps, sub, ulps):
+        """r approximates sqrt(m2) to `ulps` ulp (relative eps, absolute `sub` in the subnormal range)"""
+        r = F(r)
+        lo = max(r * (1 - ulps * F(eps)) - ulps * F(sub), F(0))
+        hi = r * (1 + ulps * F(eps)) + ulps * F(sub)
+        return lo * lo <= m2 <= hi * hi
+
+    def report(clause, kind, dtype, shape, u, extra):
+        nonlocal nbad
+        nbad += 1
+        vio.violation('abs() is not the maximum norm at extreme scale: %s (class %s, dtype %s)' % (clause, CLS[kind].__name__ if kind in CLS else kind, dtype),
+                      dict(extra, cls=CLS[kind].__module__ + '.' + CLS[kind].__qualname__ if kind in CLS else kind, dtype=dtype, shape=list(shape),
+                           data=[repr(complex(x)) for x in np.asarray(u).reshape(-1).tolist()],
+                           how="u = cls((shape, None, numpy.dtype(dtype))); u[:] = data.reshape(u.shape); abs(u)"),
+                      match={'kind': 'abs-extreme', 'clause': clause.split(':')[0], 'dtype': dtype})
+
+    shapes = [(3,), (2, 2)] + ([(1,), (2, 1, 3)] if thorough else [])
+    regimes = ['tiny', 'huge', 'denormal', 'mixed', 'ordinary', 'zero', 'single-min']
+    for kind, cls in sorted(CLS.items()):
+        for dtype, (base, eps, sub, lo, hi, emax) in DT.items():
+            try:
+                probe = cls(((2,), None, np.dtype(dtype)))
+                assert probe.dtype == np.dtype(dtype)
+                supported[dtype] = supported.get(dtype, 0) + 1
+            except Exception:
+                continue
+            cplx = np.dtype(dtype).kind == 'c'
+            for shape in shapes:
+                n = int(np.prod(cls((shape, None, np.dtype(dtype))).shape))
+                for regime in regimes:
+                    for rep in range(2 if thorough else 1):
+                        if regime == 'single-min':
+                            comps = [(0.0, 0.0)] * n
+                            k = rng.randrange(n)
+                            comps[k] = (0.0, -sub) if (cplx and rng.random() < 0.5) else (sub, 0.0)
+                        else:
+                            re = draw(regime, n, base, lo, hi, sub)
+                            im = draw(regime, n, base, lo, hi, sub) if cplx else [0.0] * n
+                            comps = list(zip(re, im))
+                        with warnings.catch_warnings(), np.errstate(all='ignore'):
+                            warnings.simplefilter('ignore')
+                            u = make(cls, kind, dtype, shape, comps)
+                            r = abs(u)
+                            ncase += 1
+                            ck.case(key=('abs-extreme', kind, dtype, shape, regime, rep), nontrivial=regime != 'zero')
+                            m2 = modsq_max(u)
+                            allzero = m2 == 0
+                            if type(r) is not float:
+                                report('type: abs() returned %s' % type(r).__name__, kind, dtype, shape, u, {'abs': repr(r)})
+                                continue
+                            if not np.isfinite(r):
+                                report('finite: abs(u) = %r for finite data with representable modulus' % r, kind, dtype, shape, u, {'abs': repr(r)})
+                                continue
+                            if (r == 0.0) != allzero:
+                                report('definite: abs(u) = %r but u %s 0' % (r, '==' if allzero else '!='), kind, dtype, shape, u, {'abs': repr(r)})
+                                continue
+                            if r < 0 or not within(r, m2, eps, sub, ULPS):
+                                report('value: abs(u) = %r differs from max|u_i| = %r by more than %d ulp' % (r, float(m2) ** 0.5 if m2 < F(10) ** 600 else 'huge', ULPS),
+                                       kind, dtype, shape, u, {'abs': repr(r)})
+                                continue
+                            # homogeneity for a power of two that keeps every entry a normal number (scaling is then exact)
+                            flat = np.abs(np.asarray(u).reshape(-1).view(base))
+                            nz = flat[flat > 0]
+                            if nz.size:
+                                e_lo = int(np.floor(np.log2(float(nz.min()))))
+                                e_hi = int(np.floor(np.log2(float(nz.max())))) + 1
+                                kmin, kmax = -(emax - 2) - e_lo, (emax - 2) - e_hi
+                                normal = e_lo >= -emax
+                                if normal and kmin <= kmax:
+                                    k = rng.randint(kmin, kmax)
+                                    c = float(2.0 ** max(min(k, 1000), -1000))
+                                    k = int(np.log2(c))
+                                    cu = c * u if rng.random() < 0.5 else u * c
+                                    exact_scaled = np.array_equal(np.asarray(cu), np.asarray(u).astype(np.clongdouble if cplx else np.longdouble) * np.longdouble(c))
+                                    if exact_scaled and type(cu) is type(u) and cu.dtype == u.dtype:
+                                        rc = abs(cu)
+                                        nhom[0] += 1
+                                        ok = (rc == c * r) if not cplx else (np.isfinite(rc) and abs(F(rc) - F(c) * F(r)) <= 2 * F(eps) * F(c) * F(r))
+                                        if not ok:
+                                            report('homogeneous: abs(2^%d u) = %r but 2^%d abs(u) = %r' % (k, rc, k, c * r), kind, dtype, shape, u,
+                                                   {'abs': repr(r), 'c': c, 'abs_cu': repr(rc)})
+                                            continue
+                            # triangle inequality with a second array of the same regime
+                            if regime != 'single-min':
+                                re2 = draw(regime, n, base, lo, hi, sub)
+                                im2 = draw(regime, n, base, lo, hi, sub) if cplx else [0.0] * n
+                                # halve so that the sum stays representable
+                                v = make(cls, kind, dtype, shape, list(zip(re2, im2)))
+                                uh, vh = (0.5 * u, 0.5 * v) if regime == 'huge' else (u, v)
+                                ru, rv, rs = abs(uh), abs(vh), abs(uh + vh)
+                                nhom[1] += 1
+                                if not (F(rs) <= (F(ru) + F(rv)) * (1 + 2 * ULPS * F(eps)) + 2 * ULPS * F(sub)):
+                                    report('triangle: abs(u+v) = %r > abs(u) + abs(v) = %r' % (rs, ru + rv), kind, dtype, shape, uh,
+                                           {'v': [repr(complex(x)) for x in np.asarray(vh).reshape(-1).tolist()]})
+    # particles.__abs__ = max over positions and velocities (float64 only: the class fixes nothing else)
+    for regime in ['tiny', 'huge', 'denormal', 'mixed']:
+        base, eps, sub, lo, hi, emax = DT['float64']
+        with warnings.catch_warnings(), np.errstate(all='ignore'):
+            warnings.simplefilter('ignore')
+            p = particles(((3, 2), None, np.dtype('float64')), val=(0.0, 0.0, 1.0, 1.0))
+            p.pos[:] = np.array(draw(regime, 6, base, lo, hi, sub)).reshape(3, 2)
+            p.vel[:] = np.array(draw(regime, 6, base, lo, hi, sub)).reshape(3, 2)
+            r = abs(p)
+            want = max(abs(x) for x in np.asarray(p.pos).reshape(-1).tolist() + np.asarray(p.vel).reshape(-1).tolist())
+            ncase += 1
+            ck.case(key=('abs-extreme', 'particles', regime))
+            if float(r) != want:
+                nbad += 1
+                vio.violation('particles.__abs__ = %r is not the maximum %r over positions and velocities' % (r, want),
+                              {'pos': np.asarray(p.pos).tolist(), 'vel': np.asarray(p.vel).tolist()},
+                              match={'kind': 'abs-extreme', 'clause': 'value', 'dtype': 'particles'})
+    ck.cov['abs_extreme_cases'] = ncase
+    ck.cov['abs_extreme_dtypes_supported'] = supported
+    ck.cov['abs_extreme_ulps'] = ULPS
+    ck.cov['abs_extreme_homogeneity_checks'], ck.cov['abs_extreme_triangle_checks'] = nhom
+    ck.obligation('abs() = max|u_i| (exact rational reference, %d ulp), definite, finite, homogeneous (2^k), triangle on %d extreme-scale arrays'
+                  % (ULPS, ncase), nbad == 0)
+
+
 REQUIRED = ['C13_ops_preserve_objects', 'C13_ops_preserve_others', 'C13_value_semantics_seq', 'C13_wf_reachable',
             'C13_iop_rebinds_never_writes', 'C13_ufunc_result_class', 'C13_binop_same_class', 'C13_iop_keeps_class',
             'C13_setitem_frame', 'C13_setitem_preserves_disjoint', 'C13_copy_independent', 'C13_component_views_alias',
@@ -957,3 +1129,5 @@ def run(ck):
     ck.log('operation sequences done')
     run_level(ck)
     ck.log('run-level clause done')
+    abs_extreme_oracle(ck)
+    ck.log('abs() at extreme scales done')
